@@ -112,8 +112,25 @@ fn split_case<'a>(t: &'a [&'a str]) -> (&'a [&'a str], &'a [&'a str]) {
     (&t[..bar], &t[bar + 1..])
 }
 
+/// Prints into a sink that refuses to grow beyond 64 MiB (an option record may declare 2^32 spaces that a
+/// correct layout never emits; a printer that does emit them is stopped here instead of filling the memory).
 fn printed(v: &Value, o: &O) -> String {
-    v.print_with(o.to_options()).to_string()
+    struct Capped(String);
+    impl std::fmt::Write for Capped {
+        fn write_str(&mut self, s: &str) -> std::fmt::Result {
+            if self.0.len() + s.len() > (1 << 26) {
+                return Err(std::fmt::Error);
+            }
+            self.0.push_str(s);
+            Ok(())
+        }
+    }
+    use std::fmt::Write as _;
+    let mut sink = Capped(String::new());
+    match write!(sink, "{}", v.print_with(o.to_options())) {
+        Ok(()) => sink.0,
+        Err(_) => "OUTPUT-BEYOND-64-MiB".into(),
+    }
 }
 
 // ------------------------------------------------------------------ C13 / C04
@@ -162,7 +179,7 @@ pub fn eval_c13(line: &str) -> String {
         disturb();
         let second = printed(&v, &o);
         // formatter flags do not reach the pieces
-        let flagged = format!("{:>9.2}", v.print_with(o.to_options()));
+        let flagged = if first.len() < (1 << 20) && !first.starts_with("OUTPUT-BEYOND") { format!("{:>9.2}", v.print_with(o.to_options())) } else { first.clone() };
         if first == second && flagged == first { hex_str(&first) } else { format!("UNSTABLE {} / {}", hex_str(&first), hex_str(&second)) }
     })
 }
@@ -172,10 +189,17 @@ pub fn eval_c04(line: &str) -> String {
     guarded(move || {
         disturb();
         let text = printed(&v, &o);
-        let rt = match Value::parse_str(&text) {
+        let mut rt = match Value::parse_str(&text) {
             Ok((w, _)) => (w == v) as u8,
             Err(_) => 2,
         };
+        // the printed text is as readable through the byte entry point
+        if rt == 1 {
+            rt = match Value::parse_slice(text.as_bytes()) {
+                Ok((w, _)) => if w == v { 1 } else { 3 },
+                Err(_) => 4,
+            };
+        }
         // the presets' dedicated methods must agree with print_with(preset)
         let preset_ok = {
             let po = o.to_options();
@@ -391,7 +415,28 @@ pub fn generate_layout(args: &Args, out: &mut Out) {
 
 /// C04 runs the list-based model parser on every printed text (quadratic in the length of a
 /// container or string): it gets the same suite without the very wide values.
+/// Printed texts longer than 64 KiB in which a 2-, 3- or 4-byte character lies across byte offset 65536
+/// (and 131072) in every alignment: one long string, so that the text is cheap for the model parser.
+fn long_texts(out: &mut Out, full: bool) {
+    let ps = presets();
+    for block in [65536usize, 131072] {
+        if block > 65536 && !full {
+            continue;
+        }
+        for c in [0xe9u32, 0x20ac, 0x1f600] {
+            for k in (block - 6)..=(block + 1) {
+                // compact: `["` is two bytes, so the character starts at byte k
+                let mut cps: Vec<String> = (0..k - 2).map(|i| format!("{:x}", 0x61 + i % 26)).collect();
+                cps.push(format!("{:x}", c));
+                cps.push("7a".into());
+                out.case_str(&format!("p {} | [ ${} #31,2e,35,65,2b,33 ]", ps[1].tokens(), cps.join(",")));
+            }
+        }
+    }
+}
+
 pub fn generate_c04(args: &Args, out: &mut Out) {
+    long_texts(out, args.thorough());
     generate_layout_with(args, out, false)
 }
 
@@ -494,6 +539,60 @@ fn generate_layout_with(args: &Args, out: &mut Out, very_wide: bool) {
             out.case_str(&format!("p {} | {}", ps[1 + i % 2].tokens(), v));
             if i % 2 == 0 {
                 out.case_str(&format!("p {} | {}", wide.tokens(), v));
+            }
+        }
+    }
+    // 2d. one spacing field at and beyond what fits 8 and 16 bits, under no limit and under width limits
+    // around the resulting width; and fields of 2^32 and more under a limit that expands the container,
+    // the one layout in which begin / end / after-comma / empty spacing is never printed
+    if very_wide {
+        let ps = presets();
+        let vals = ["[ #31 #32 ]", "{ $61 #31 $62 [ ] }", "[ [ ] { } ]", "{ $6b { $6b [ #31 ] } }"];
+        for base in [&ps[0], &ps[2]] {
+            for field in 0..12usize {
+                for x in [255usize, 256, 257, 300, 511, 512, 65535, 65536, 65537] {
+                    if x > 600 && !(full || field % 3 == 0) {
+                        continue;
+                    }
+                    for (vi, v) in vals.iter().enumerate() {
+                        if x > 600 && vi > 1 {
+                            continue;
+                        }
+                        let mut o = base.clone();
+                        if field < 5 {
+                            o.a[field] = x;
+                        } else {
+                            o.o[field - 5] = x;
+                        }
+                        o.al = None;
+                        o.ol = None;
+                        out.case_str(&format!("p {} | {}", o.tokens(), v));
+                        o.al = Some(Limit::Width(x + 12));
+                        o.ol = Some(Limit::ItemOrWidth(3, x + 20));
+                        out.case_str(&format!("p {} | {}", o.tokens(), v));
+                    }
+                }
+            }
+            for (field, is_obj) in [(0usize, false), (1, false), (4, false), (2, false), (0, true), (1, true), (2, true), (4, true)] {
+                for x in [1usize << 32, (1 << 32) + 3, (1 << 33) + 80, 1 << 40] {
+                    for v in vals {
+                        let mut o = base.clone();
+                        if is_obj {
+                            o.o[field] = x;
+                        } else {
+                            o.a[field] = x;
+                        }
+                        for (al, ol) in [
+                            (Some(Limit::Width(80)), Some(Limit::Width(80))),
+                            (Some(Limit::ItemOrWidth(9, 3)), Some(Limit::ItemOrWidth(9, 90))),
+                            (if is_obj { None } else { Some(Limit::Width(7)) }, if is_obj { Some(Limit::Width(7)) } else { None }),
+                        ] {
+                            o.al = al;
+                            o.ol = ol;
+                            out.case_str(&format!("p {} | {}", o.tokens(), v));
+                        }
+                    }
+                }
             }
         }
     }
